@@ -91,7 +91,7 @@ def build(cls_name, **cfg):
 def run_functions(ctx):
     rng = ctx.rng
     # answers chosen so that an honest equivalent without the restricted function exists
-    for i in range(ctx.n(1600, 30000)):
+    for i in range(ctx.n(1600, 120000)):
         cls_name = rng.choice(['FormulaGrader', 'MatrixGrader', 'NumericalGrader'])
         numeric = cls_name == 'NumericalGrader'
         var = '2' if numeric else 'x'
@@ -149,7 +149,7 @@ def run_functions(ctx):
 
 def run_required(ctx):
     rng = ctx.rng
-    for i in range(ctx.n(640, 10000)):
+    for i in range(ctx.n(640, 40000)):
         cls_name = rng.choice(['FormulaGrader', 'MatrixGrader', 'NumericalGrader'])
         var = '2' if cls_name == 'NumericalGrader' else 'x'
         req = rng.choice(['sin', 'cos', 'exp'])
@@ -192,7 +192,7 @@ def run_required(ctx):
 
 def run_forbidden(ctx):
     rng = ctx.rng
-    for i in range(ctx.n(800, 12000)):
+    for i in range(ctx.n(800, 48000)):
         cls_name = rng.choice(['FormulaGrader', 'MatrixGrader'])
         ans = rng.choice(['x^2', 'x^3'])
         forb = rng.choice([['x*x'], ['x * x', '*x*'], ['*x'], ['x*x', 'x^(1+1)']])
@@ -222,7 +222,7 @@ def run_names(ctx):
     from mitxgraders import FormulaGrader, MatrixGrader, RealInterval
     rng = ctx.rng
     NAME_ERR = ('UndefinedVariable', 'UndefinedFunction', 'UnableToParse')
-    for i in range(ctx.n(1600, 30000)):
+    for i in range(ctx.n(1600, 120000)):
         cls = rng.choice([FormulaGrader, MatrixGrader])
         kind = rng.choice(['instructor_var', 'instructor_var', 'numbered', 'suffix', 'name', 'name'])
         ans_full, ans_part = 'x^2+1', '2*(x^2+1)'
@@ -305,7 +305,7 @@ def judge_name(ctx, restriction, twin, restricted, formula, allowed, wit, need_t
 def run_siblings(ctx):
     from mitxgraders import FormulaGrader, ListGrader
     rng = ctx.rng
-    for i in range(ctx.n(320, 5000)):
+    for i in range(ctx.n(320, 20000)):
         sub = FormulaGrader(variables=['x'])
         g = ListGrader(answers=['x+1', rng.choice(['sibling_1^2', '2*sibling_1', 'sibling_1+x'])], subgraders=sub, ordered=True)
         second_honest = {'sibling_1^2': '(x+1)^2', '2*sibling_1': '2*x+2', 'sibling_1+x': '2*x+1'}[g.config['answers'][0][1][0]['expect'][0]['comparer_params'][0]]
@@ -335,7 +335,7 @@ def run_sibling_sampler(ctx):
     """A sibling that enters the scope only through a DependentSampler is just as unavailable to the student."""
     from mitxgraders import FormulaGrader, MatrixGrader, ListGrader, DependentSampler
     rng = ctx.rng
-    for i in range(ctx.n(320, 4000)):
+    for i in range(ctx.n(320, 16000)):
         cls = rng.choice([FormulaGrader, MatrixGrader])
         dep = rng.choice(['sibling_1^2', 'sibling_1+1', '2*sibling_1'])
         honest2 = {'sibling_1^2': '(x+1)^2', 'sibling_1+1': 'x+2', '2*sibling_1': '2*x+2'}[dep]
@@ -373,7 +373,7 @@ def run_siblings3(ctx):
     """A sibling variable introduced for one box must not become usable in another box (shared subgrader)."""
     from mitxgraders import FormulaGrader, ListGrader
     rng = ctx.rng
-    for i in range(ctx.n(320, 4000)):
+    for i in range(ctx.n(320, 16000)):
         sub = FormulaGrader(variables=['x'])
         layout = rng.choice([['x+1', 'sibling_1^2', '2*x'], ['2*x', 'x+1', 'sibling_2^2', '3*x'], ['sibling_3^2', '2*x', 'x+1']])
         g = ListGrader(answers=list(layout), subgraders=sub, ordered=True)
@@ -418,7 +418,7 @@ def run_siblings3(ctx):
 def run_sum(ctx):
     from mitxgraders import SumGrader
     rng = ctx.rng
-    for i in range(ctx.n(480, 6000)):
+    for i in range(ctx.n(480, 24000)):
         ans = {'lower': '1', 'upper': '6', 'summand': 'sin(n)^2+cos(n)^2+n', 'summation_variable': 'n'}
         kind = rng.choice(['blacklist', 'whitelist', 'whitelist_none', 'required'])
         base = dict(answers=ans, samples=2, tolerance=1e-9)
